@@ -177,7 +177,32 @@ KV_TEMPLATES = {
     'noval': ('?,?=1', [((0,), None), ((2,), (4,))]),
     'eqeq': ('?=?=1', [((0,), (2, 3, 4))]),
     'three': ('?=1,b=2,?=3', [((0,), (2,)), ((4,), (6,)), ((8,), (10,))]),
+    'braced': ('a={?,x},a=?', [((0,), (3, 4, 5)), ((8,), (10,))]),
 }
+
+
+def body_none_items(s, sepname):
+    """lists containing None placeholders (as produced for absent optional arguments): skip_none=False keeps them in place"""
+    nl = get_list(s)
+    if nl is None or len(nl) < 1:
+        return False
+    items = list(nl)
+    withnone = N.LatexNodeList(items[:1] + [None] + items[1:] + [None], parsing_state=nl.parsing_state,
+                               latex_walker=nl.latex_walker)
+    sep_obj, sep_txt = SEPS[sepname]
+    for skip in (False, True):
+        parts = withnone.split_at_chars(sep_obj, keep_empty=True, skip_none=skip)
+        flat = [x for g in parts for x in g]
+        nn = len([x for x in flat if x is None])
+        require(nn == (0 if skip else 2), 'split_at_chars: None placeholders are kept exactly when skip_none is False')
+        parts2 = withnone.split_at_node(lambda n: isinstance(n, N.LatexGroupNode), skip_none=skip)
+        flat2 = [x for g in parts2 for x in g]
+        nn2 = len([x for x in flat2 if x is None])
+        require(nn2 == (0 if skip else 2), 'split_at_node: None placeholders are kept exactly when skip_none is False')
+        kept = [x for x in flat2 if x is not None]
+        orig = [x for x in items if not isinstance(x, N.LatexGroupNode)]
+        require(len(kept) == len(orig) and all(a is b for a, b in zip(kept, orig)), 'split_at_node: nodes lost or reordered')
+    return True
 
 
 def body_keyval(s, policy, tname):
@@ -217,6 +242,15 @@ def body_keyval(s, policy, tname):
     except Exception as e:
         fail('parse_keyval_content raised %s' % type(e).__name__)
     require(not exp_err, 'repeated key under policy error did not raise ValueError')
+    # parsing must not modify the list: a second call gives the same answer and the source tree is unchanged
+    before = ''.join(x.latex_verbatim() for x in nl if x is not None)
+    got_again = nl.parse_keyval_content(repeated_key_aggregate_action=policy, default_value_nodelist=None)
+    require(list(got_again.keys()) == list(got.keys()), 'second parse_keyval_content call returns different keys')
+    for kk in got:
+        require(''.join(x.latex_verbatim() for x in got_again[kk] if x is not None) ==
+                ''.join(x.latex_verbatim() for x in got[kk] if x is not None),
+                'second parse_keyval_content call returns different values (the first call modified the list)')
+    got = got_again
     keys = list(got.keys())
     require(len(keys) == len(exp), 'number of keys differs from splitting at commas and at the first equals sign')
     for (k, v), gk in zip(exp, keys):
@@ -258,6 +292,9 @@ def conditions(tier):
     for m in (-1, 0, 1, 2):
         conds.append(Cond('splitnode_ms%d' % (m + 1), 's: str', skel_pre('?{x}?{}x'), 'body_split_node(s, %d)' % m, timeout=T,
                           smoke=[dict(s='a{x}c{}x')], twin=False))
+    for sn, sk in (('comma', '?{,}?,?'), ('comma', '?,?')):
+        conds.append(Cond('none_items_%d' % len(sk), 's: str', skel_pre(sk), 'body_none_items(s, %r)' % sn, timeout=T, twin=False,
+                          smoke=[dict(s=skel_fill(sk))]))
     for pol in ('concatenate', 'first', 'last', 'error'):
         for nm, (sk, _) in KV_TEMPLATES.items():
             conds.append(Cond('keyval_%s_%s' % (pol, nm), 's: str', alnum_pre(sk), 'body_keyval(s, %r, %r)' % (pol, nm), timeout=T,
